@@ -111,3 +111,12 @@ u64 ext__ZNKSt7__cxx1112basic_stringIcSt11char_traitsIcESaIcEE5rfindEcm(rt_strin
   }
   return 0xFFFFFFFFFFFFFFFFULL;
 }
+/* size_type find_last_of(const char* s, size_type pos, size_type n) const noexcept */
+u64 ext__ZNKSt7__cxx1112basic_stringIcSt11char_traitsIcESaIcEE12find_last_ofEPKcmm(rt_string* s, u8* set, u64 pos, u64 n) {
+  u64 size = s->len;
+  if (size && n) {
+    if (--size > pos) size = pos;
+    do { for (u64 k = 0; k < n; k++) if (set[k] == s->p[size]) return size; } while (size-- != 0);
+  }
+  return 0xFFFFFFFFFFFFFFFFULL;
+}
